@@ -59,6 +59,13 @@ def ws_files(c):
     for i in range(1, n + 1):
         ren = f'#[serde(rename = "Dup{i}Renamed")]\n' if c["renames"] == "all" or (c["renames"] == "one" and i == 1) else ""
         files[f"p{i}/src/lib.rs"] = f"#[typeshare]\n{ren}pub struct Dup {{ pub in_p{i}: u32 }}\n#[typeshare]\npub struct Only{i} {{ pub o: u32 }}\n"
+    if c["form"] == "distinct_needs":
+        # no ambiguity at all: crates whose modules need different helpers / imports (Option, Vec, HashMap, a generic, the unit type,
+        # a date): whatever a backend keeps across the modules of one run, the bytes of each module are the same in every process
+        shapes = ["pub a: Option<u32>", "pub a: Vec<String>", "pub a: HashMap<String, u32>", "pub a: (), pub b: u8", "pub a: OffsetDateTime"]
+        files = {f"p{i}/src/lib.rs": f"#[typeshare]\npub struct Only{i} {{ {shapes[(i - 1) % len(shapes)]} }}\n" for i in range(1, n + 3)}
+        files["g/src/lib.rs"] = "#[typeshare]\npub struct G<T> { pub t: T }\n"
+        return files
     use, ty = {"use_unknown": ("use zzz::Dup;\n", "Dup"), "use_facade": ("use facade::Dup;\n", "Dup"), "bare": ("", "Dup"),
                "glob_all": ("".join(f"use p{i}::*;\n" for i in range(1, n + 1)), "Dup"), "qualified_unknown": ("", "zzz::Dup"),
                "use_first": ("use p1::Dup;\n", "Dup")}[c["form"]]
